@@ -27,13 +27,19 @@ def gen(tier, seed):
             pairs.append((t, p))
     exhaustive = {'pairs len<=%d over 14 symbols' % k: True}
     sub = list(csvgen.all_strings('ab%_.*', 3 if tier == 'quick' else 4))
+    # a literal `{n}` / `{n,}` / `{n,m}` after an atom would be a QUANTIFIER if the braces were not escaped
+    brace = list(csvgen.all_strings('a{2,}', 3 if tier == 'quick' else 4)) + ['a{2}', 'a{1,2}', 'a{2,}', '%{2}', '_{2}', 'ab{2}c', 'a{0}', 'a{2}{2}']
+    for p in brace:
+        for t in brace + ['aa', 'aaa', 'a', 'abbc', '']:
+            pairs.append((t, p))
+    exhaustive['pairs over {a { 2 , }} (quantifier shapes)'] = True
     for p in sub:
         for t in sub:
             pairs.append((t, p))
     exhaustive['pairs len<=%d over {a b %% _ . *}' % (3 if tier == 'quick' else 4)] = True
     rnd = random.Random(seed * 86028121 + 17)
     # characters outside the BMP are ONE code point for Python and TWO UTF-16 code units for JavaScript (see `units` below)
-    pool = list('ab%_%_.*\\[]()^$+?|{}-') + ['é', '中', ' ', 'Z', '😀', '𝒳', '😀']
+    pool = list('ab%_%_.*\\[]()^$+?|{}-') + ['é', '中', ' ', 'Z', '😀', '𝒳', '😀', '{2}', '{1,3}', '2', '{2,}']
     for _ in range(20000 if tier == 'quick' else 200000):
         p = ''.join(rnd.choice(pool) for _i in range(rnd.randint(0, 10)))
         # texts derived from the pattern so that matches are frequent
